@@ -19,11 +19,18 @@ def subtree_cases(ctx, ntrees):
                         "ñ": {"k": "d", "mode": 0o700, "mtime": 10**18, "c": {"g": {"k": "f", "data": "", "mode": 0o600, "mtime": 7 * 10**17}}}}}
                 else:
                     c[name] = {"k": "f", "data": "78", "mode": 0o644, "mtime": 10**18 + 1}
+        # names made of characters that mean something to a glob matcher, beside plain names those patterns would match
+        if t % 2 == 0:
+            for name in ctx.rng.sample(["v?", "v1", "x*", "xy", "d [ab]", "d a", "{p,q}", "p", "q", "b\\c", "bc", "[!a]", "z"], 6):
+                if name not in c:
+                    c[name] = {"k": "d", "mode": 0o755, "mtime": 10**18, "c": {
+                        "file": {"k": "f", "data": name.encode().hex(), "mode": 0o644, "mtime": 10**18 + 3}}}
         opts = gen.rand_opts(ctx.rng)
         paths = [p for p, _ in gen.tree_paths(tree)]
         dirs = [p for p, n in gen.tree_paths(tree) if n["k"] == "d"]
-        absent = ["/zz", "/a/zz", "/ñ/nope", "/a.", "/añ/f/x"]
-        absent = [p for p in absent if p not in paths][:3]
+        absent = ["/zz", "/a/zz", "/ñ/nope", "/a.", "/añ/f/x", "/v*", "/{v1,p}", "/d [a]", "/?"]
+        absent = [p for p in absent if p not in paths]
+        absent = absent[:3] + ctx.rng.sample(absent[3:], min(2, len(absent[3:])))
         subtrees = paths + absent
         steps = [{"op": "init"}, {"op": "mktree", "path": "src", "tree": tree}, {"op": "backup", "opts": opts},
                  {"op": "list", "band": 0}, {"op": "restore", "band": 0, "dest": "full"}]
